@@ -14,6 +14,7 @@ import struct
 
 import common
 import fbwalk
+import inplace_lib
 import liverange_lib
 import pipe_common
 import pipeline
@@ -53,13 +54,24 @@ def arena_line(model, align):
 
 def main():
     ck = Check("C12", "translation_validation")
-    ck.lean_stage(["VelaVerif.Props.C12", "VelaVerif.Props.C12LiveRange"])
+    ck.lean_stage(["VelaVerif.Props.C12", "VelaVerif.Props.C12LiveRange", "VelaVerif.Props.C12InPlace"])
     n = 6000 if ck.thorough else 320
     profiles = ["cpu", "mixed", "pattern", "cascade", "weights", "pattern", "cpu", "lut", "pattern", "elementwise"]
     pipeline.load_vela()
     liverange_lib.install()      # harness-side wrapping of live_range.extract_*, before the workers are forked
-    outs = pipe_common.run_corpus(ck, n, profiles=profiles, want={"out_model": True, "extra": liverange_lib.extra},
+    inplace_lib.install()        # ... of extract_npu_subgraphs and _get_ifm_to_fuse (design.d/InPlace.md)
+    inplace_lib.install_profile()
+    ip_stub_stats = inplace_lib.stage(ck, [], prefix="inplace_stub_", compiled=False)     # function level first
+    outs = pipe_common.run_corpus(ck, n, profiles=profiles, want={"out_model": True, "extra": inplace_lib.extra_with_liverange},
                                   corpus_first=False, sweep=True)
+    if ck.replay_arg is None:
+        # boundary shapes of the in-place decision chain (harness/inplace_nets.py): every variant once (4x thorough)
+        import inplace_nets
+
+        outs += pipe_common.run_corpus(ck, inplace_nets.n_variants() * (4 if ck.thorough else 1), profiles=["inplace"],
+                                       want={"out_model": True, "extra": inplace_lib.extra_with_liverange},
+                                       corpus_first=False, sweep=False)
+    ip_known = inplace_lib.classify(ck, outs)
     lines, owners, extra = [], [], []
     for o in outs:
         if "harness_exception" in o:
@@ -105,7 +117,17 @@ def main():
             ck.violation(f"OfflineMemoryAllocation header/length inconsistent: {hdr}", rp)
         if nconf:
             rejected += 1
-            ck.violation(f"arena tensors overlap while both live: pairs {m.group(2)} (network {o['idx']} {o['profile']} {o['opts']})", rp)
+            # a conflict that is the arena view of a recorded in-place finding: the Lean Spec on the real decisions of this
+            # compilation (Spec/InPlace) names the destroyed tensors; every conflicting pair must contain one of them
+            key = None
+            kn = ip_known.get((o["profile"], o["idx"]))
+            if kn is not None:
+                names = [t["name"] for t in sg["tensors"]]
+                pairs = [tuple(int(v) for v in p.split("-")) for p in m.group(2).split()]
+                if pairs and all(any(names[i] in kn[1] for i in p) for p in pairs):
+                    key = kn[0]
+            ck.violation(f"arena tensors overlap while both live: pairs {m.group(2)} (network {o['idx']} {o['profile']} {o['opts']})", rp,
+                         key=key)
         if nmis:
             rejected += 1
             ck.violation(f"arena offsets not aligned to {line.split('align=')[1].split(' ')[0]}: tensors {m.group(4)}", rp)
@@ -133,9 +155,12 @@ def main():
                          f"(network {o['idx']} {o['profile']} {o['opts']})", dict(rp, reported=reported, required=required))
     for o, ans in list(zip(owners, answers))[:3]:
         ck.sample({"network": o["desc"], "opts": o["opts"], "verdict": ans})
-    lr_stats = liverange_lib.stage(ck, outs)
+    lr_stats = liverange_lib.stage(ck, outs, known=ip_known)
+    ip_stats = inplace_lib.stage(ck, outs, stub=False)
     ck.finish({
         **lr_stats,
+        **ip_stub_stats,
+        **ip_stats,
         "programs": programs,
         "disagreements_checked": rejected,
         "evaluations": len(outs),
